@@ -15,6 +15,7 @@ from sim import core, seams, common
 from sim.core import Violation
 from sim.seams import ScriptedRNG
 from checks.c09 import gen_field, build_field
+from sim.pristine import Pristine
 
 PROPERTY = "C10"
 RULE = ("seeded bench histories: gv reconfigurations (fs, wavelength), then EDFA bundles (one/two-polarisation inputs, "
@@ -30,7 +31,8 @@ COMPONENTS_REAL = ["opticomlib.devices.EDFA", "opticomlib.devices.BPF", "opticom
 COMPONENTS_STUB = ["np.random.randn/normal/standard_normal inside Layer-B twins (ScriptedRNG)",
                    "opticomlib.utils.tm (SimClock)"]
 ASSUMPTIONS = [
-    "the library's BPF is trusted for the bandwidth clause (output == BPF(unfiltered twin))",
+    "the library's BPF is trusted for the bandwidth clause (output == BPF(unfiltered twin)), evaluated in a pristine "
+    "process after every grid change and for 40% of the other bundles",
     "with all ASE draws at zero and a noise-free input the noise component may be None or all zeros",
     "ASE draws may be split/merged by a refactor: only the 4x4 covariance M M^T of the identified mixing matrix is asserted",
     "output OSNR <= input OSNR is implied by (gain sqrt(G) on signal and on incoming noise) + (ASE covariance positive "
@@ -56,7 +58,8 @@ def generate(seed, tier):
             op = {"op": "edfa"}
             op.update(gen_field(rng))
             op.update({"G": rng.choice([0, 0.0, 20, 40, rng.uniform(0, 40)]), "NF": rng.choice([3, 5.0, rng.uniform(3, 10)]),
-                       "BWf": rng.choice([None, None, rng.uniform(0.05, 0.45)]), "seed": rng.getrandbits(31),
+                       "BWf": rng.choice([None, None, rng.uniform(0.05, 0.45), rng.uniform(0.05, 0.45)]),
+                       "BWabs": rng.choice([None, 1e9, 4e9, 10e9]), "iso": rng.random() < 0.4, "seed": rng.getrandbits(31),
                        "sdtype": rng.choice(["complex", "complex", "real"])})
             ops.append(op)
         elif k == "gv":
@@ -93,6 +96,8 @@ def _rows(a):
 
 class Bench:
     def __init__(self, rec):
+        self.pristine = Pristine()        # forked before this run touches the library
+        self.after_gv = True
         from opticomlib.devices import EDFA, BPF
         from opticomlib.typing import optical_signal, electrical_signal, gv
         self.EDFA, self.BPF, self.O, self.E, self.gv = EDFA, BPF, optical_signal, electrical_signal, gv
@@ -109,6 +114,8 @@ class Bench:
 
     def op_gv(self, op):
         common.apply_gv(op["kw"])
+        self.pristine.gv(op["kw"])
+        self.after_gv = True
         self.rec.fault("gv_reconf")
         return f"{self.gv.fs:.3e}/{self.gv.f0:.4e}"
 
@@ -275,12 +282,25 @@ class Bench:
         # ---- bandwidth clause ---------------------------------------------------------------------------
         if op["BWf"] is not None:
             bw = op["BWf"] * fs
+            ba = op.get("BWabs")
+            if ba is not None and 0.04 * fs < ba < 0.9 * fs:
+                bw = float(ba)
             with ScriptedRNG("real", seed=op["seed"]):
                 y_nb = run(x)
             with ScriptedRNG("real", seed=op["seed"]):
                 y_bw = run(x, bw)
             self._contract(y_bw, n, what + "/BW")
-            ref = self.BPF(y_nb, bw)
+            if op.get("iso") or self.after_gv:
+                ans = self.pristine.ask("bpf", np.asarray(y_nb.signal), None if y_nb.noise is None else
+                                        np.asarray(y_nb.noise), 2, bw)
+                if ans[0] != "ok":
+                    raise RuntimeError(f"pristine BPF failed: {ans}")
+                import types as _t
+                ref = _t.SimpleNamespace(signal=ans[1], noise=ans[2])
+                self.rec.probe("reference filter evaluated in a pristine process")
+            else:
+                ref = self.BPF(y_nb, bw)
+            self.after_gv = False
             for name in ("signal", "noise"):
                 a_, b_ = getattr(y_bw, name), getattr(ref, name)
                 if (a_ is None) != (b_ is None):
@@ -340,5 +360,8 @@ class Bench:
 
 def execute(spec, rec, known):
     b = Bench(rec)
-    core.run_ops(b, spec["ops"], rec, "C10/pol", "C10/type")
+    try:
+        core.run_ops(b, spec["ops"], rec, "C10/pol", "C10/type")
+    finally:
+        b.pristine.close()
     rec.sim_s = b.clock.covered
